@@ -239,7 +239,7 @@ impl MappingInfo {
                 x => panic!("Unexpected type width: {}", x),
             };
             if let Ok(addr) = addr {
-                if low_addr <= addr && addr <= high_addr {
+                if low_addr <= addr && addr < high_addr {
                     return true;
                 }
                 offset += size_of::<usize>();
